@@ -2,7 +2,7 @@
 (***************************************************************************)
 (* Task orchestration of the CLI (outrank.__main__.main and the task_*     *)
 (* modules): which artefacts each task reads and writes, in which order,   *)
-(* and the life cycle of the on-disk checkpoint.  One action per task      *)
+(* and the life cycle of the on-disk checkpoint.  One action per CLI       *)
 (* invocation; the state is the set of files in the output folder plus the *)
 (* checkpoint file in the working directory.                               *)
 (*   Generate         --task data_generator                                *)
@@ -10,67 +10,104 @@
 (*   RareValues       --task identify_rare_values   (forces Constant)      *)
 (*   TransformerHints --task feature_summary_transformers (forces Constant)*)
 (*   Summary          --task ranking_summary                               *)
+(*   Visualize        --task visualization                                 *)
+(*   All              --task all = ranking ; ranking_summary ;             *)
+(*                    visualization inside ONE process: when the ranking   *)
+(*                    step calls exit() ("No rankings were obtained") or   *)
+(*                    raises, the later steps do not run                   *)
+(*   InstanceRanking  --task instance_ranking: one family of plots per     *)
+(*                    FIRST CHARACTER of the raw lines (the grouping key   *)
+(*                    is line[0], header line included) - modelled as the  *)
+(*                    code does it                                         *)
 (* The run's configuration (heuristic kind, numeric columns, whether any   *)
-(* mini-batch is produced, whether a tail batch exists, interaction order) *)
-(* is chosen at Init.  This module is where the specification keeps        *)
-(* growing beyond the listed properties (DESIGN.md section 5).             *)
+(* mini-batch is produced, whether a tail batch exists, interaction order, *)
+(* first characters of the data file's lines) is chosen at Init.  This     *)
+(* module is where the specification keeps growing beyond the listed       *)
+(* properties (DESIGN.md section 5).                                       *)
 (***************************************************************************)
 EXTENDS Naturals, Sequences, FiniteSets, TLC
 
-CONSTANTS MaxTasks
+CONSTANTS MaxTasks, FirstCharSets
 
 VARIABLES cfg, data, out, ckpt, log, crashed
 vars == <<cfg, data, out, ckpt, log, crashed>>
 
-Configs == [kind : {"scoring", "3mr", "Constant"}, numeric : BOOLEAN, batches : {"none", "loop", "tail-only", "loop+tail"}, order : {1, 2}]
+Configs == [kind : {"scoring", "3mr", "Constant"}, numeric : BOOLEAN, batches : {"none", "loop", "tail-only", "loop+tail"}, order : {1, 2},
+            chars : FirstCharSets]
 RankingArtefacts(c) ==
     {"pairwise_ranks.tsv", "memory.tsv", "value_repetitions.json", "combination_estimation_counts.json", "timings.json", "arguments.json"}
     \cup (IF c.kind = "3mr" THEN {"3mr_ranks.tsv"} ELSE {})
-    \cup (IF c.numeric THEN {"numeric_feature_statistics.tsv"} ELSE {})
+    \cup (IF c.numeric /\ c.batches \in {"loop", "loop+tail"} THEN {"numeric_feature_statistics.tsv"} ELSE {})      \* NumericStats.tla: only loop batches are summarised
 SummaryArtefacts(c) == {"feature_singles.tsv", "feature_singles_transformers_only_imp.tsv"}
                        \cup (IF c.order > 1 THEN {"feature_singles_aggregated.tsv"} ELSE {})
+VisArtefacts == {"heatmap.pdf", "dendrogram_complete.pdf", "SilhouetteProfile.pdf", "TopClustering.tsv",
+                 "barplot_top_3.pdf", "barplot_top_10.pdf", "barplot_top_25.pdf", "barplot_top_50.pdf", "barplot_top_100.pdf"}
+InstanceArtefacts(c) == {"distPlot_" \o ch : ch \in c.chars}
 \* the checkpoint is written inside the loop for scoring heuristics and unconditionally after a tail batch
 CheckpointWritten(c) == \/ (c.kind # "Constant" /\ c.batches \in {"loop", "loop+tail"})
                         \/ c.batches \in {"tail-only", "loop+tail"}
 
+\* ---- effects of the three steps of `all`, as functions of (files, checkpoint)
+RankEff(o, k) ==
+    IF cfg.batches = "none"
+    THEN [out |-> o, ckpt |-> k, crashed |-> FALSE, stop |-> TRUE]                       \* 'No rankings were obtained, exiting ..': exit()
+    ELSE IF CheckpointWritten(cfg) \/ k
+         THEN [out |-> o \cup RankingArtefacts(cfg), ckpt |-> FALSE, crashed |-> FALSE, stop |-> FALSE]     \* os.remove(checkpoint)
+         ELSE \* Constant heuristic without a tail batch: nothing wrote the checkpoint, os.remove raises
+              [out |-> o \cup RankingArtefacts(cfg), ckpt |-> FALSE, crashed |-> TRUE, stop |-> TRUE]
+SumEff(o) == IF "pairwise_ranks.tsv" \in o THEN [out |-> o \cup SummaryArtefacts(cfg), crashed |-> FALSE]
+             ELSE [out |-> o, crashed |-> TRUE]                                           \* FileNotFoundError
+VisEff(o) == IF "pairwise_ranks.tsv" \in o THEN [out |-> o \cup VisArtefacts, crashed |-> FALSE]
+             ELSE [out |-> o, crashed |-> TRUE]
+
 Init == /\ cfg \in Configs /\ data = FALSE /\ out = {} /\ ckpt = FALSE /\ log = <<>> /\ crashed = FALSE
-CanRun == ~crashed /\ Len(log) < MaxTasks
+CanRun == Len(log) < MaxTasks            \* `crashed` describes the LAST invocation only: each task is its own process
 Generate == /\ CanRun /\ data' = TRUE /\ log' = Append(log, "data_generator")
-            /\ UNCHANGED <<cfg, out, ckpt, crashed>>
+            /\ crashed' = FALSE /\ UNCHANGED <<cfg, out, ckpt>>
 Ranking == /\ CanRun /\ data
            /\ log' = Append(log, "ranking")
-           /\ IF cfg.batches = "none"
-              THEN \* 'No rankings were obtained, exiting ..' (numeric statistics are written before)
-                   /\ out' = out \cup (IF cfg.numeric THEN {} ELSE {}) /\ ckpt' = ckpt /\ crashed' = FALSE
-              ELSE IF CheckpointWritten(cfg) \/ ckpt
-                   THEN /\ out' = out \cup RankingArtefacts(cfg) /\ ckpt' = FALSE /\ crashed' = FALSE     \* os.remove(checkpoint)
-                   ELSE \* Constant heuristic without a tail batch: nothing wrote the checkpoint, os.remove raises
-                        /\ out' = out \cup RankingArtefacts(cfg) /\ ckpt' = FALSE /\ crashed' = TRUE
+           /\ LET r == RankEff(out, ckpt) IN out' = r.out /\ ckpt' = r.ckpt /\ crashed' = r.crashed
            /\ UNCHANGED <<cfg, data>>
 RareValues == /\ CanRun /\ data
               /\ log' = Append(log, "identify_rare_values")
               /\ out' = out \cup {"rare_values.tsv", "feature_sparsity_summary.tsv"}
               /\ ckpt' = (ckpt \/ cfg.batches \in {"tail-only", "loop+tail"})        \* exit() before the clean-up
-              /\ UNCHANGED <<cfg, data, crashed>>
+              /\ crashed' = FALSE /\ UNCHANGED <<cfg, data>>
 TransformerHints == /\ CanRun /\ data
                     /\ log' = Append(log, "feature_summary_transformers")
                     /\ ckpt' = (ckpt \/ cfg.batches \in {"tail-only", "loop+tail"})
-                    /\ UNCHANGED <<cfg, data, out, crashed>>
+                    /\ crashed' = FALSE /\ UNCHANGED <<cfg, data, out>>
 Summary == /\ CanRun
            /\ log' = Append(log, "ranking_summary")
-           /\ IF "pairwise_ranks.tsv" \in out
-              THEN out' = out \cup SummaryArtefacts(cfg) /\ crashed' = FALSE
-              ELSE out' = out /\ crashed' = TRUE                                   \* FileNotFoundError
+           /\ LET s == SumEff(out) IN out' = s.out /\ crashed' = s.crashed
            /\ UNCHANGED <<cfg, data, ckpt>>
-Next == Generate \/ Ranking \/ RareValues \/ TransformerHints \/ Summary
+Visualize == /\ CanRun
+             /\ log' = Append(log, "visualization")
+             /\ LET v == VisEff(out) IN out' = v.out /\ crashed' = v.crashed
+             /\ UNCHANGED <<cfg, data, ckpt>>
+All == /\ CanRun /\ data
+       /\ log' = Append(log, "all")
+       /\ LET r == RankEff(out, ckpt) IN
+          IF r.stop THEN out' = r.out /\ ckpt' = r.ckpt /\ crashed' = r.crashed
+          ELSE LET s == SumEff(r.out)  v == VisEff(s.out) IN
+               out' = v.out /\ ckpt' = r.ckpt /\ crashed' = (s.crashed \/ v.crashed)
+       /\ UNCHANGED <<cfg, data>>
+InstanceRanking == /\ CanRun /\ data
+                   /\ log' = Append(log, "instance_ranking")
+                   /\ out' = out \cup InstanceArtefacts(cfg)
+                   /\ crashed' = FALSE /\ UNCHANGED <<cfg, data, ckpt>>
+Next == Generate \/ Ranking \/ RareValues \/ TransformerHints \/ Summary \/ Visualize \/ All \/ InstanceRanking
 Spec == Init /\ [][Next]_vars
 
 \* ---- properties of the orchestration
 LastTask == IF log = <<>> THEN "none" ELSE log[Len(log)]
 RanksImplyArtefacts == "pairwise_ranks.tsv" \in out => RankingArtefacts(cfg) \subseteq out
 SummaryImpliesRanks == "feature_singles.tsv" \in out => "pairwise_ranks.tsv" \in out
-CheckpointCleanedAfterRanking == (LastTask = "ranking" /\ ~crashed /\ cfg.batches # "none") => ~ckpt
-CrashOnlyWhenStated == crashed => \/ (LastTask = "ranking_summary" /\ "feature_singles.tsv" \notin out)
-                                  \/ (LastTask = "ranking" /\ cfg.kind = "Constant" /\ cfg.batches = "loop")
-Emit == (Len(log) = MaxTasks \/ crashed) => PrintT(<<"CASE", cfg, log, out, ckpt, crashed>>)
+PlotsImplyRanks == "heatmap.pdf" \in out => "pairwise_ranks.tsv" \in out
+CheckpointCleanedAfterRanking == (LastTask \in {"ranking", "all"} /\ ~crashed /\ cfg.batches # "none") => ~ckpt
+AllIsTheThreeTasks == (LastTask = "all" /\ ~crashed /\ cfg.batches # "none") =>
+                          RankingArtefacts(cfg) \cup SummaryArtefacts(cfg) \cup VisArtefacts \subseteq out
+CrashOnlyWhenStated == crashed => \/ (LastTask \in {"ranking_summary", "visualization"} /\ "pairwise_ranks.tsv" \notin out)
+                                  \/ (LastTask \in {"ranking", "all"} /\ cfg.kind = "Constant" /\ cfg.batches = "loop")
+Emit == Len(log) = MaxTasks => PrintT(<<"CASE", cfg, log, out, ckpt, crashed>>)
 =============================================================================
